@@ -2,6 +2,7 @@
 C12 — every resting price is on the tick grid; rejected creations leave no trace.
 -/
 import Bourse.Model.Ops
+import Bourse.Lemmas.Grid
 
 namespace Bourse.Props.C12
 open Bourse
@@ -45,6 +46,20 @@ theorem createAndPlace_err_unchanged (b : Book) (sd : Side) (vol tr : Nat) (p : 
 theorem modify_offgrid_ignored (b : Book) (id p : Nat) (v : Option Nat) (e : Entry)
     (h : b.orders[id]? = some e) (hp : p % b.tick ≠ 0) : b.modifyOrder id (some p) v = b := by
   simp [Book.modifyOrder, h, Book.offGrid, hp]
+
+/-- **Every price in the book is on the tick grid, also after any modification**: from a new book,
+after ANY sequence of operations — arbitrary creation prices on and off the grid, arbitrary modify
+prices, any ids and volumes, no validity hypothesis whatsoever — every order in the table is a
+market order or has a price that is a multiple of the tick size. -/
+theorem prices_on_grid_always (t0 tick : Nat) (trading : Bool) (ops : List Op) :
+    ∀ e ∈ ((Book.new t0 tick trading).run ops).orders, Book.isMarket e.order = true ∨ e.order.price % tick = 0 := by
+  have h0 : Grid (Book.new t0 tick trading) := by intro e he; simp [Book.new] at he
+  have h := grid_run _ ops h0
+  have ht : ((Book.new t0 tick trading).run ops).tick = tick := run_tick _ ops
+  intro e he
+  have := h e he
+  rw [ht] at this
+  exact this
 
 /-- Non-vacuity: tick 2, an off-grid creation is rejected and an off-grid modification ignored
 while on-grid ones succeed. -/
